@@ -184,7 +184,7 @@ func (nal *NewsArtList) Read(p []byte) (int, error) {
 	n := copy(p, out[nal.readOffset:])
 	nal.readOffset += n
 
-	return n, io.EOF
+	return n, nil
 }
 
 type NewsFlavorList struct {
@@ -217,9 +217,9 @@ func (newscat *NewsCategoryListData15) Read(p []byte) (int, error) {
 		return 0, io.EOF // All bytes have been read
 	}
 
-	n := copy(p, out)
+	n := copy(p, out[newscat.readOffset:])
 
-	newscat.readOffset = n
+	newscat.readOffset += n
 
 	return n, nil
 }
